@@ -99,6 +99,7 @@ func ruleSeekOff(c *Ctx, r *Rep, tier string) {
 		unresolved("bgzf.(*countReader).seek: no Seek call")
 	}
 	n := 0
+	var invalidations []*ssa.Store
 	allInstrs(fn, func(ins ssa.Instruction) {
 		st, ok := ins.(*ssa.Store)
 		if !ok {
@@ -106,6 +107,12 @@ func ruleSeekOff(c *Ctx, r *Rep, tier string) {
 		}
 		fa, ok := st.Addr.(*ssa.FieldAddr)
 		if !ok || fieldVarOfAddr(fa) != offF {
+			return
+		}
+		// an invalidation – a negative constant, which no block's offset equals – belongs
+		// on the failure edge; it is judged by #failure-invalidates below
+		if k, isK := constInt(st.Val); isK && k < 0 {
+			invalidations = append(invalidations, st)
 			return
 		}
 		n++
@@ -119,6 +126,46 @@ func ruleSeekOff(c *Ctx, r *Rep, tier string) {
 		}
 		r.Check(ok, rule, fmt.Sprintf("bgzf.(*countReader).seek#off~%d", n), c.Pos(st.Pos()), "recorded on the success edge of the underlying Seek", "the offset is recorded before (or regardless of) the underlying Seek: after a failed seek the reader believes it is at the new offset")
 	})
+	// a failed Seek may have moved the underlying reader (io.Seeker promises nothing
+	// about the position after an error; the library's own test double moves and then
+	// fails): where it is, is not known, and the recorded offset must match no block,
+	// so that the next use seeks again. Left as it was, a Seek to the block the reader
+	// was about to read finds "already there" and decodes from wherever the failed
+	// Seek went (fourteenth-round sub-agent, on the unchanged tree).
+	r.Instance(rule, 1)
+	{
+		why := ""
+		for _, b := range fn.Blocks {
+			ce, isC := classifyErrIf(b, func(v ssa.Value) bool { ex, isEx := v.(*ssa.Extract); return isEx && ex.Tuple == ssa.Value(seek) })
+			if !isC || !ce.isNil || b.Succs[0] == b.Succs[1] {
+				continue
+			}
+			isInval := func(x ssa.Instruction) bool {
+				for _, iv := range invalidations {
+					if ssa.Instruction(iv) == x {
+						return true
+					}
+				}
+				return false
+			}
+			if bad, ok := mustPass(Loc{b.Succs[1-ce.yes], -1}, isReturn, isInval, nil); !ok {
+				why = "after the underlying Seek failed the function can return at " + c.Pos(bad.Pos()) + " with the recorded offset as it was: if the failed Seek moved the underlying reader, a later Seek to the recorded offset is skipped as \"already there\" and the block is decoded from the wrong place – wrong bytes, no error"
+			}
+		}
+		for _, iv := range invalidations {
+			okEdge := false
+			for _, b := range fn.Blocks {
+				ce, isC := classifyErrIf(b, func(v ssa.Value) bool { ex, isEx := v.(*ssa.Extract); return isEx && ex.Tuple == ssa.Value(seek) })
+				if isC && ce.isNil && dominatedByEdge(fn, b, 1-ce.yes, iv.Block()) {
+					okEdge = true
+				}
+			}
+			if !okEdge {
+				why = "the recorded offset is invalidated at " + c.Pos(iv.Pos()) + " on a path on which the underlying Seek did not fail"
+			}
+		}
+		r.Check(why == "", rule, "bgzf.(*countReader).seek#failure-invalidates", c.Pos(fn.Pos()), "on the failure edge the recorded offset is set to a value no block has", why)
+	}
 	if n == 0 {
 		r.Instance(rule, 1)
 		r.Fail(rule, "bgzf.(*countReader).seek#off", c.Pos(fn.Pos()), "the offset is never recorded")
